@@ -2,10 +2,11 @@
 
 proof: coq/proofs/LogHandler_Proofs.v (file_log_complete: every record sequence followed by close, both handlers),
 LogRepr_Proofs.v (repr of bytes is invertible: the coalesced line determines the payload), LogFormat_Proofs.v (format_total),
-ChanLog_Proofs.v (channel_log_exact); props/C20.v.
+ChanLog_Proofs.v (channel_log_exact, whole_session_exact, late_open_loses); props/C20.v.
 tie: Gen_Log.v regenerated from the source (format strings, literals, prefixes, hot-path templates, statement order
-of read(), call sites of transport.read) + correspondence of model/LogHandler.v, LogFormat.v, ChanLog.v against the real
-handlers / formatter / channels on the same generated record sequences and read sequences."""
+of read() and of Driver.open / AsyncDriver.open, call sites of transport.read) + correspondence of model/LogHandler.v,
+LogFormat.v, ChanLog.v against the real handlers / formatter / channels / drivers on the same generated record sequences,
+read sequences and whole sessions (c20_driver.py)."""
 import ast
 import asyncio
 import io
@@ -17,12 +18,12 @@ import shutil
 import sys
 import weakref
 
-from . import common
+from . import c20_driver, common
 from .common import coq_bool, coq_bytes, coq_list
 
 LEVEL = "proof"
 SOURCES = ["scrapli/logging.py", "scrapli/channel/base_channel.py", "scrapli/channel/sync_channel.py",
-           "scrapli/channel/async_channel.py"]
+           "scrapli/channel/async_channel.py", "scrapli/driver/base/sync_driver.py", "scrapli/driver/base/async_driver.py"]
 CREATED = 1700000000.0
 MSECS = 123.0
 TS_RE = re.compile(r"\d{4}-\d{2}-\d{2} \d{2}:\d{2}:\d{2},\d{3}")
@@ -64,9 +65,11 @@ Definition chk (c : bool * bool * bool * str * list record * str * nat * nat) : 
 """
 
 CHAN_HEADER = """From Verif Require Import Bytes ChanLog.
-Definition chk (c : sink_kind * bytes * list bytes * option bytes) : bool :=
-  let '(k, existing, chunks, obs) := c in
-  match chan_log (fun b => b) k existing chunks, obs with
+Definition Rd := EvRead.
+Definition Op := EvOpen.
+Definition chk (c : sink_kind * bytes * list sess_ev * option bytes) : bool :=
+  let '(k, existing, evs, obs) := c in
+  match sess_log (fun b => b) k existing None evs, obs with
   | None, None => true
   | Some a, Some b => beq a b
   | _, _ => false
@@ -84,8 +87,14 @@ def log_case_term(case, obs, asctime):
 def chan_case_term(case, obs):
     k = {"none": "SNone", "path": "(SFile %s)" % coq_bool(case["append"]), "true": "(SFile %s)" % coq_bool(case["append"]),
          "bytesio": "SBytesIO"}[case["sink"]]
-    return "(%s, %s, %s, %s)" % (k, coq_bytes(bytes.fromhex(case["existing"])),
-                                 coq_list([coq_bytes(bytes.fromhex(c)) for c in case["chunks"]]),
+    # the channel-level events of the session in the order they happened: Op = BaseChannel.open(), Rd c = a transport read.
+    # chan-log / session suites open the channel themselves before the first read; the driver suite OBSERVES when
+    # Driver.open / AsyncDriver.open did it.
+    if "events" in case:
+        evs = ["Op" if k == "open" else "Rd %s" % coq_bytes(bytes.fromhex(c)) for k, c in case["events"] if k in ("open", "r")]
+    else:
+        evs = ["Op"] + ["Rd %s" % coq_bytes(bytes.fromhex(c)) for c in case["chunks"]]
+    return "(%s, %s, %s, %s)" % (k, coq_bytes(bytes.fromhex(case["existing"])), "[%s]" % "; ".join(evs),
                                  "None" if obs["sink"] is None else "(Some %s)" % coq_bytes(bytes.fromhex(obs["sink"])))
 
 
@@ -195,7 +204,22 @@ def expected_log_regex(case, asctime):
     Uses CPython's own % formatting and repr, not the model.  It demands what the property says — every message,
     in order, numbered consecutively, consecutive reads coalesced with the concatenated payload, previous content kept
     in append mode and dropped in write mode — and leaves the layout of the other columns (target, caller info, header
-    row) open: a change of layout alone is reported through the model correspondence, not as a failing input."""
+    row) open: a change of layout alone is reported through the model correspondence, not as a failing input.
+    The target column of entry i is captured as group t<i>: oracle_log checks WHOSE target it is (own_targets)."""
+    entries = expected_entries(case)
+    out = re.escape(case["existing"] or "") if case["append"] else ""
+    loose = r"[^\n]*?"
+    for i, (rd, m) in enumerate(entries):
+        if i == 0:
+            out += r"(?:ID[^\n]*MESSAGE\n)?"
+        cols = [re.escape("%-5d" % (i + 1)), re.escape(asctime), re.escape("%-8s" % logging.getLevelName(rd["level"])), r"(?P<t%d>%s)" % (i, loose)]
+        out += re.escape(" | ").join(cols) + re.escape(" | ") + (loose + re.escape(" | ") if case["caller"] else "") + re.escape(m) + re.escape("\n")
+    return out
+
+
+def expected_entries(case):
+    """[(record the line stands for, message)]: one per record, or (buffering handler) one per maximal run of read
+    messages — the run's first record, the concatenated payload"""
     msgs = []
     for rd in case["recs"]:
         a = _args(rd)
@@ -215,14 +239,38 @@ def expected_log_regex(case, asctime):
             entries.append((run[0][0], "read : %r" % (b"".join(x[1][len(READ_PREFIX):].encode() for x in run),)))
     else:
         entries = msgs
-    out = re.escape(case["existing"] or "") if case["append"] else ""
-    loose = r"[^\n]*?"
-    for i, (rd, m) in enumerate(entries):
-        if i == 0:
-            out += r"(?:ID[^\n]*MESSAGE\n)?"
-        cols = [re.escape("%-5d" % (i + 1)), re.escape(asctime), re.escape("%-8s" % logging.getLevelName(rd["level"])), loose]
-        out += re.escape(" | ").join(cols) + re.escape(" | ") + (loose + re.escape(" | ") if case["caller"] else "") + re.escape(m) + re.escape("\n")
-    return out
+    return entries
+
+
+def own_targets(extra):
+    """the connection a record belongs to, spelled from ITS OWN extras: '<uid>:' if it has a uid, then 'host:port' if it
+    has a host (a port without a host may be shown or not).  Layout (padding, where a long target is cut) stays open."""
+    uid = "%s:" % extra["uid"] if "uid" in extra else ""
+    if "host" in extra:
+        return [uid + "%s:%s" % (extra["host"], extra.get("port", ""))]
+    return [uid] + ([uid + ":%s" % extra["port"], uid + "%s" % extra["port"]] if "port" in extra else [])
+
+
+def target_is_own(shown, extra):
+    shown = shown.rstrip(" ")
+    for full in own_targets(extra):
+        if shown == full.rstrip(" "):
+            return True
+        if shown.endswith("...") and len(shown) - 3 < len(full) and full.startswith(shown[:-3]) and len(shown) >= 6:
+            return True     # cut: what is shown is the beginning of this record's own target
+    return False
+
+
+def target_mismatches(case, obs, asctime):
+    """[(line number, target column as written, what its own record's extras spell)] — for the replay output"""
+    m = re.fullmatch(expected_log_regex(case, asctime), obs["file"], re.S)
+    if not m:
+        return []
+    return [(i + 1, m.group("t%d" % i).rstrip(" "), own_targets(rd["extra"])[0], rd["extra"])
+            for i, (rd, _) in enumerate(expected_entries(case)) if not target_is_own(m.group("t%d" % i), rd["extra"])]
+
+
+WHY_TARGET = "a line carries the target (uid:host:port) of another logger than the one that emitted its record"
 
 
 def oracle_log(case, obs, asctime):
@@ -234,8 +282,13 @@ def oracle_log(case, obs, asctime):
     if obs["errors"]:
         return "%d record(s) reported as '--- Logging error ---' on stderr instead of being written" % obs["errors"]
     rx = expected_log_regex(case, asctime)
-    if not re.fullmatch(rx, obs["file"], re.S):
+    m = re.fullmatch(rx, obs["file"], re.S)
+    if not m:
         return "file content is not the emitted sequence (reads coalesced)" if case["buffered"] else "file content is not the emitted sequence"
+    # faithful attribution: the line of entry i (a record, or a run of reads: its first record) names that record's connection
+    for i, (rd, _) in enumerate(expected_entries(case)):
+        if not target_is_own(m.group("t%d" % i), rd["extra"]):
+            return WHY_TARGET
     return None
 
 
@@ -280,6 +333,21 @@ def gen_extra(rng):
     if rng.random() < 0.5:
         ex["uid"] = rng.choice(["", "u", "U" * 23, "U" * 24, "U" * 25])
     return ex
+
+
+def gen_extra_pool(rng):
+    """several loggers of ONE device: same host and port, told apart by their uid (the documented purpose of logging_uid),
+    one of them possibly without uid; with an empty host: uid-only loggers and a plain 'scrapli.*' record without extras;
+    sometimes one uid shared by several host:port pairs"""
+    import scrapli.logging as sl
+    if rng.random() < 0.2:     # the other way round: one uid used for several devices / ports
+        uid = rng.choice(["u", "lab", ""])
+        hps = rng.sample([("router1", 22), ("router1", 23), ("router2", 22), ("h", 830), ("", 22)], rng.choice([2, 3]))
+        return [dict(sl.get_instance_logger("scrapli.channel", host=h, port=p, uid=uid).extra) for h, p in hps]
+    host = rng.choice(["router1", "h", "", "a" * 17, "2001:db8::1"])
+    port = rng.choice([22, 23, 830])
+    uids = rng.sample(["", "primary", "standby", "u", "conn-2", "U" * 6], rng.choice([2, 2, 3, 4]))
+    return [dict(sl.get_instance_logger("scrapli.channel", host=host, port=port, uid=u).extra) for u in uids]
 
 
 def gen_record(rng, wide, extra, malformed=False, buffered=True):
@@ -337,9 +405,12 @@ def gen_log_case(rng, wide, malformed=False):
     n = rng.choice([0, 1, 2, 3, 4, 5, 6, 8, 12])
     buffered = rng.random() < 0.7
     same_extra = gen_extra(rng)
+    pool = gen_extra_pool(rng) if rng.random() < 0.3 else None
+    if pool and n < 2:
+        n = rng.choice([2, 3, 5])
     recs = []
     while len(recs) < n:
-        ex = same_extra if rng.random() < 0.7 else gen_extra(rng)
+        ex = rng.choice(pool) if pool else (same_extra if rng.random() < 0.7 else gen_extra(rng))
         if malformed and rng.random() < 0.35:
             recs.append(gen_record(rng, wide, ex, malformed=True, buffered=buffered))
         elif rng.random() < 0.45:   # a run of reads (what the buffering is about)
@@ -353,7 +424,7 @@ def gen_log_case(rng, wide, malformed=False):
     append = rng.random() < 0.4
     return {"buffered": buffered, "append": append, "caller": rng.random() < 0.3,
             "existing": rng.choice([None, "", "old line\n", "no newline"]) if append else rng.choice([None, "stale\n"]),
-            "close": rng.choice(["close", "shutdown"]), "recs": recs, "domain": not malformed}
+            "close": rng.choice(["close", "shutdown"]), "recs": recs, "domain": not malformed, "shared_host_port": bool(pool)}
 
 
 CORPUS_LOG = [
@@ -411,6 +482,8 @@ def shrink_log(case, workdir, asctime, why):
 
 def classify_log(case, obs):
     kinds = set(r.get("kind") for r in case["recs"])
+    if not obs["errors"] and not obs["escaped"] and oracle_log(case, obs, _asctime()) == WHY_TARGET:
+        return "c20-target-attribution"
     if any("host" in r["extra"] and "port" not in r["extra"] for r in case["recs"]) and obs["errors"]:
         return "c20-host-without-port"
     if case["buffered"] and obs["errors"]:
@@ -587,6 +660,31 @@ def oracle_chan(case, obs):
     if obs["stray_files"]:
         return "unexpected files %r" % obs["stray_files"]
     return None
+
+
+def shrink_driver(case, workdir, why):
+    """drop the operations after open, then the chunks served after the login, while the oracle keeps failing the same way"""
+    def fails(c):
+        o = c20_driver.run_driver_impl(c, workdir)
+        w = c20_driver.oracle_driver(c, o)
+        return (o, w) if (w and re.sub(r"\d+", "N", w)[:40] == re.sub(r"\d+", "N", why)[:40]) else None
+    cur = case
+    best = fails(cur)
+    if best is None:        # not reproducible in isolation: report as it was seen
+        o = c20_driver.run_driver_impl(case, workdir)
+        return case, o, why
+    for cand in (dict(cur, ops=[], on_open=[]), dict(cur, ops=[])):
+        r = fails(cand)
+        if r:
+            cur, best = cand, r
+            break
+    while len(cur["chunks"]) > max(1, cur["login_chunks"]):       # the login dialogue itself stays whole
+        cand = dict(cur, chunks=cur["chunks"][:-1])
+        r = fails(cand)
+        if not r:
+            break
+        cur, best = cand, r
+    return cur, best[0], best[1]
 
 
 CHUNK_PARTS = [b"\r\n", b"\r", b"\n", b"\x1b[0m", b"\x1b[2J", b"\x1b", b"[K", b"router#", b"show version", b"\x00", b"\xff\xfe", b"abc",
@@ -814,6 +912,9 @@ def run(rep):
         elif r["suite"] == "session":
             o = run_session_impl(case, rep.workdir)
             why = oracle_session(case, o)
+        elif r["suite"] == "driver":
+            o = c20_driver.run_driver_impl(case, rep.workdir)
+            why = c20_driver.oracle_driver(case, o)
         else:
             o = run_chan_impl(case, rep.workdir)
             why = oracle_chan(case, o)
@@ -876,7 +977,7 @@ def run(rep):
         rep.violation("log file (%s handler, %s mode): %s" % ("buffering" if small["buffered"] else "plain", "append" if small["append"] else "write",
                                                              oracle_log(small, sobs, asctime) or why),
                       {"suite": "log-seq", "case": small, "observed": sobs, "expected_regex": expected_log_regex(small, asctime),
-                       "rerun": "./check C20 --replay <this file>"}, signature=sig)
+                       "target_mismatches": target_mismatches(small, sobs, asctime), "rerun": "./check C20 --replay <this file>"}, signature=sig)
     if bad is None:
         rep.broken.append("correspondence log-seq (model evaluation failed)")
         rep.notes.append(log)
@@ -935,7 +1036,56 @@ def run(rep):
         mcase["existing"] = case["existing"] if (case["sink"] == "bytesio" or case["has_existing"]) else ""
         cterms.append(chan_case_term(mcase, obs))
     rep.sample({"suite": "chan-log", "case": ccases[0][0], "sink": ccases[0][1]["sink"]})
+
+    # 3b'. driver : whole sessions through the real Driver.open / AsyncDriver.open (login dialogue in the channel), every sink;
+    # the model sees the channel-level events in the order they were OBSERVED (channel.open() relative to the reads)
+    n_drv = 900 if thorough else 120
+    dcases, dfails = [], []
+    ddist = {"cases": 0, "combos": {}, "sinks": {}, "faults": {}, "drivers": {}, "bypass": 0, "on_open": 0, "login_completed": 0,
+             "login_bytes_served": 0, "ops_completed": 0, "ops_starved": 0, "open_outcomes": {}, "chan_open_before_first_read": 0}
+    for i in range(n_drv):
+        case = c20_driver.gen_driver_case(rng, i, gen_chunk)
+        obs = c20_driver.run_driver_impl(case, rep.workdir)
+        dcases.append((case, obs))
+        combo = "%s/%s" % (case["stack"], case["transport"])
+        ddist["cases"] += 1
+        for key, val in (("combos", combo), ("sinks", case["sink"]), ("faults", case["fault"]), ("drivers", case["driver"]),
+                         ("open_outcomes", str(obs["results"][0][1]) if obs["results"] else "?")):
+            ddist[key][val] = ddist[key].get(val, 0) + 1
+        ddist["bypass"] += case["bypass"]
+        ddist["on_open"] += bool(case["on_open"])
+        opened = bool(obs["results"]) and obs["results"][0] == ("open", None)
+        ddist["login_completed"] += opened and not case["bypass"]
+        ddist["login_bytes_served"] += sum(len(c) // 2 for c in obs["served_chunks"][:case["login_chunks"]])
+        ddist["ops_completed"] += sum(1 for r in obs["results"][1:-1] if r[1] != "Starved")
+        ddist["ops_starved"] += sum(1 for r in obs["results"][1:-1] if r[1] == "Starved")
+        ddist["chan_open_before_first_read"] += obs["open_before_first_read"]
+        rep.case(("drv", json.dumps(case, sort_keys=True)), nontrivial=case["sink"] != "none" and not case["bypass"] and len(obs["served_chunks"]) >= 2)
+        why = c20_driver.oracle_driver(case, obs)
+        if why:
+            dfails.append((len(dcases) - 1, why))
+        mcase = dict(case, events=obs["events"])
+        mcase["existing"] = case["existing"] if (case["sink"] == "bytesio" or case["has_existing"]) else ""
+        cterms.append(chan_case_term(mcase, obs))
+    rep.sample({"suite": "driver", "case": dcases[0][0], "sink": dcases[0][1]["sink"], "events": dcases[0][1]["events"]})
     cbad, clog = common.eval_cases(rep.workdir, "cases_c20_chan", CHAN_HEADER, cterms, "chk")
+    dbad = None if cbad is None else [b - len(ccases) for b in cbad if b >= len(ccases)]
+    cbad = None if cbad is None else [b for b in cbad if b < len(ccases)]
+    rep.coverage["correspondence"]["driver"] = {"cases": len(dcases), "distribution": ddist,
+                                                "model_disagreements": None if dbad is None else len(dbad), "oracle_failures": len(dfails)}
+    seen_d = set()
+    for ix, why in sorted(dfails, key=lambda f: (dcases[f[0]][0]["fault"] != "none", f[0])):     # completed logins first
+        case, obs = dcases[ix]
+        key = (case["stack"], case["transport"], re.sub(r"\d+", "N", why)[:40])
+        if key in seen_d or len(seen_d) >= 3:
+            continue
+        seen_d.add(key)
+        small, sobs, swhy = shrink_driver(case, rep.workdir, why)
+        rep.violation("whole session (%s driver, transport %s, sink %s): %s" % (small["stack"], small["transport"], small["sink"], swhy),
+                      {"suite": "driver", "case": small, "observed": sobs, "rerun": "./check C20 --replay <this file>"})
+    for ix in [b for b in (dbad or []) if b not in set(i for i, _ in dfails)][:3]:
+        rep.broken.append("correspondence driver: model differs from implementation")
+        rep.notes.append("driver disagreement: %s %s" % (json.dumps(dcases[ix][0])[:800], json.dumps(dcases[ix][1])[:800]))
     rep.coverage["correspondence"]["chan-log"] = {"cases": len(cterms), "distribution": cdist,
                                                   "model_disagreements": None if cbad is None else len(cbad), "oracle_failures": len(cfails)}
     for ix, why in cfails[:3]:
@@ -1009,9 +1159,16 @@ def run(rep):
                 "payloads with quotes, %, CR/LF, ESC, NUL, non-UTF-8) + a malformed stream (bad templates, surrogates: model-vs-code only), "
                 "through the handler enable_basic_logging installs (buffering / plain, write / append, caller_info on/off, close() / logging.shutdown), "
                 "plus EVERY sequence of length <= 3 (thorough: 4) over six record shapes through the buffering handler; "
+                "30 % of the log-seq cases draw their records from 2-4 loggers of ONE device (same host:port, different / no uid; empty host: uid-only "
+                "and extras-free loggers) and every written line's target column must be that of its own record's extras; "
                 "chan-log: read sequences with CR / ANSI / empty reads and public ops over a scripted transport, sync and asyncio, sinks path / True / BytesIO / off; "
+                "driver: whole sessions through the real Driver.open / AsyncDriver.open (base and generic drivers; transports telnet, system, asynctelnet; "
+                "auth_bypass on/off) over a scripted transport: banner + in-channel login dialogue (username/password; ssh password / passphrase / key) + motd + "
+                "prompt + on_open + get_prompt / send_input / send_command / raw reads + close, also a device going silent inside the login and a refused login; "
+                "sinks path / True / BytesIO / off, write / append, previous content; oracle: sink after close == every byte served from the first byte of the "
+                "session, CRs removed; "
                 "session: channel + log file together. non-trivial = (log) >= 2 records with a read, (chan) a sink and a CR or ESC served, "
-                "(session) >= 2 reads; distinct = the whole case")
+                "(driver) a sink, a login in the channel and >= 2 reads, (session) >= 2 reads; distinct = the whole case")
     shutil.rmtree(os.path.join(rep.workdir, "tmp"), ignore_errors=True)
 
 
@@ -1035,12 +1192,25 @@ def replay(path):
         print("handler: %s, mode: %s, closed by: %s" % ("ScrapliFileHandler" if case["buffered"] else "FileHandler", "append" if case["append"] else "write", case["close"]))
         print("file:\n" + obs["file"])
         print("stderr errors: %d %s  escaped: %r" % (obs["errors"], obs["stderr_tail"][-200:].replace("\n", " / "), obs["escaped"]))
+        for ln, shown, own, ex in target_mismatches(case, obs, asctime):
+            print("line %d: target column %r, but its record was emitted with extras %r (own target %r)" % (ln, shown, ex, own))
     elif suite == "chan-log":
         obs = run_chan_impl(case, wd)
         why = oracle_chan(case, obs)
         print("chunks:", [bytes.fromhex(c) for c in case["chunks"]], "sink kind:", case["sink"])
         print("channel log:", None if obs["sink"] is None else bytes.fromhex(obs["sink"]))
         print("served     :", bytes.fromhex(obs["served"]))
+    elif suite == "driver":
+        obs = c20_driver.run_driver_impl(case, wd)
+        why = c20_driver.oracle_driver(case, obs)
+        print("%s driver (%s), transport %s, auth_bypass %s, channel_log sink %s (%s mode), on_open %r, ops %r" % (
+            case["stack"], case["driver"], case["transport"], case["bypass"], case["sink"], "append" if case["append"] else "write", case["on_open"], case["ops"]))
+        print("session as the scripted transport and the channel saw it (open = BaseChannel.open()):")
+        for k, c in obs["events"]:
+            print("   %-6s %r" % (k, bytes.fromhex(c)))
+        print("results:", [(a, b if b in (None, "Starved") or a in ("open", "close") else "<bytes>") for a, b in obs["results"]])
+        print("channel log after close:", None if obs["sink"] is None else bytes.fromhex(obs["sink"]))
+        print("served (CRs removed)   :", bytes.fromhex(obs["served"]).replace(b"\r", b""))
     elif suite == "session":
         obs = run_session_impl(case, wd)
         why = oracle_session(case, obs)
@@ -1064,20 +1234,31 @@ MANIFEST = {
             "string, so the coalesced line determines the concatenated payload exactly; plain_log_complete for logging.FileHandler; "
             "format_total — whichever of host/port/uid are present formatting does not raise, the target column is <= 25 wide, a target that fits is shown "
             "in full, the message ends its line verbatim; channel_log_exact — for every read sequence, ANSI stripper, sink kind and previous content the sink "
-            "holds the bytes read with CRs removed, in order, once, independent of segmentation. The pinned commit's three defects (template slicing of "
+            "holds the bytes read with CRs removed, in order, once, independent of segmentation; whole_session_exact — when BaseChannel.open() is the first "
+            "channel-level event of a session the sink holds every byte read from the first byte on (banner, login dialogue, motd, outputs), and "
+            "late_open_loses / late_open_refuted — reads made before channel.open() never reach the log, so that order falsifies the statement. The pinned commit's three defects (template slicing of "
             "lazy records, no flush at close, AttributeError for host without port) are refuted by vm_compute witnesses next to the partial statement that "
             "was true of the formatter; they are fixed in the source and the full statements are proved of the model of the fixed code. "
             "Tie: Gen_Log.v regenerated from the source on every run (format strings parsed with string.Formatter, integer/string literals of formatMessage, "
-            "header record, read prefixes, the f-string of emit_buffered, statement order of Channel.read/AsyncChannel.read, call sites of transport.read, "
+            "header record, read prefixes, the f-string of emit_buffered, statement order of Channel.read/AsyncChannel.read, call sites of transport.read "
+            "in the channel AND driver modules, statement order of Driver.open / AsyncDriver.open — channel.open() before the in-channel logins and on_open —, "
             "hot-path log templates, defaults) with obligations decided by vm_compute; correspondence of the models (vm_compute) against the real handlers "
-            "installed by enable_basic_logging, the real formatter and the real sync/asyncio channels on the same generated inputs; independent oracles "
-            "(CPython's own % and repr; literal_eval of the logged payloads against the scripted transport's wire record).",
+            "installed by enable_basic_logging, the real formatter, the real sync/asyncio channels and whole sessions through the real Driver.open / "
+            "AsyncDriver.open (telnet, system, asynctelnet; login in the channel; the model is fed the OBSERVED order of channel.open() and the reads) on the "
+            "same generated inputs; independent oracles (CPython's own % and repr; literal_eval of the logged payloads against the scripted transport's "
+            "wire record; channel-log sink after close == every byte served during the whole session, CRs removed; every written line's target column "
+            "is that of its own record's host/port/uid extras, for loggers sharing host:port and differing in uid).",
     "note": "Proved of the hand-written Gallina models (LogHandler.v, LogFormat.v, ChanLog.v); the models are tied to the code by the correspondence run and the "
             "regenerated obligations only (partial: the runtime is observed on generated cases, not proved). Modelled rather than verified: logging.LogRecord.getMessage "
             "(%r %s %% only; other conversions are modelled as raising), bytes/str repr (str repr exact below code point 256), str.encode, StreamHandler.emit/handleError, "
             "the file as the text handed to the stream (its encoding, exc_info text, emits after close, several handlers on one logger, threads are outside the model); "
             "asctime is an input. The ANSI stripper is a function parameter of the channel model (any function). Observed only: file objects / BytesIO / open modes, "
-            "logging.shutdown, that every public channel operation reads through read() (ast fact + session suite).",
+            "logging.shutdown, that every public channel operation reads through read() (ast fact + session suite). "
+            "Oracle-only (outside the Coq models): which channel operations Driver.open performs and the login dialogue itself (patterns, counters, what is "
+            "written) — the session model has only the events channel.open() / read, the driver suite observes their order and the ast fact fixes it in the "
+            "source; the transports' own open/read/write/close are replaced by a script (asyncio sessions run on a virtual-time event loop so that the "
+            "login loop's sleep(0.1) costs nothing); attribution of a log line to its logger is decided by the oracle on the file (the formatter model is "
+            "a pure function of the record's extras, so a formatter with memory is reported by the correspondence as well).",
     "technique": "Coq proof by induction over the record sequence with a ghost pending-group invariant (left-to-right handler vs right-fold partition), by-computation "
                  "obligations over regenerated definitions, vm_compute correspondence against the real handlers/formatter/channels (sync + asyncio) with independent oracles",
 }
